@@ -230,8 +230,9 @@ def real_polynomials(ck, rnd, n):
                         observed=traces[i][0]['out'], driver='roots-trace')
 
 
-def ratlimit(ck, c):
-    f, g, t0 = c['f'], c['g'], c['t0']
+def ratlimit(ck, c, sf=1.0, sg=1.0):
+    """sf, sg: exact (power of two) factors on numerator / denominator: zeros, orders of vanishing and the existence of the limit do not depend on the unit"""
+    f, g, t0 = [v * sf for v in c['f']], [v * sg for v in c['g']], c['t0']
     ck.case(fp=('rl', tuple(f), tuple(g), t0), nontrivial=c['pc'] == 'raise' or (numpy.polyval(g, t0) == 0))
     try:
         got = pt.rational_limit(numpy.poly1d(f), numpy.poly1d(g), t0)
@@ -242,12 +243,12 @@ def ratlimit(ck, c):
         res = ('exc ' + type(e).__name__, None)
     ok = res[0] == c['pc']
     if ok and c['pc'] == 'return':
-        exp = c['res'][0] / float(c['res'][1])
-        ok = abs(res[1] - exp) <= 1e-12 * max(1, abs(exp))
+        exp = c['res'][0] / float(c['res'][1]) * sf / sg
+        ok = abs(res[1] - exp) <= 1e-12 * max(sf / sg, abs(exp))
     if not ok:
         ck.disagree(key='rational_limit/%s-expected-%s' % (res[0], c['pc']), site='svgpathtools/polytools.py:rational_limit',
                     what='rational_limit(%s, %s, %s) -> %s; expected %s %s' % (f, g, t0, res, c['pc'], c['res']),
-                    case=c, expected=[c['pc'], c['res']], observed=str(res), driver='rational_limit')
+                    case=dict(c, sf=sf, sg=sg), expected=[c['pc'], c['res']], observed=str(res), driver='rational_limit')
 
 
 def run(ck):
@@ -282,7 +283,7 @@ def run(ck):
         pt.np = old
     ck.sample('roots', {'roots': [{'c': 1, 'k': 'in'}, {'c': 2, 'k': 'in'}, {'c': 1, 'k': 'in'}, {'c': 3, 'k': 'in'}], 'values': '0.08, 0.2, 0.08+1e-8, 0.35'})
     ck.tlc('RatLimit', 'SPECIFICATION Spec\nCONSTANTS CoefSet <- Coefs\n MaxLen = 3\n T0Set <- T0s\nINVARIANT Dump\n', workers=1, coverage=False,
-           on_case=lambda c: ratlimit(ck, c))
+           on_case=lambda c: (ratlimit(ck, c), ratlimit(ck, c, 2.0 ** -40, 2.0 ** -40), ratlimit(ck, c, 1.0, 2.0 ** -36), ratlimit(ck, c, 2.0 ** 30, 2.0 ** -20)))
     real_polynomials(ck, rnd, 300 if quick else 3000)
 
 
